@@ -89,7 +89,7 @@ func (e *Enc) cellEnv(f *frame, pos token.Pos, st *State) *Env {
 	if pkg != nil && pos.IsValid() {
 		scope = pkg.Scope().Innermost(pos)
 	}
-	env.resolve = func(name string) (TV, bool) {
+	env.resolveSt = func(st *State, name string) (TV, bool) {
 		// "let" names of the function's contract expand in place (current state)
 		if f.con != nil {
 			for _, l := range f.con.Lets {
@@ -144,6 +144,7 @@ func (e *Enc) cellEnv(f *frame, pos token.Pos, st *State) *Env {
 		})
 		return out, true
 	}
+	env.resolve = func(name string) (TV, bool) { return env.resolveSt(st, name) }
 	return env
 }
 
@@ -196,13 +197,17 @@ func (e *Enc) enterLoop(f *frame, li *loopInfo, order []*ssa.BasicBlock) {
 		// them), but the body's own ghost updates are writes like any other
 		var gk []string
 		for k := range wv {
-			if strings.HasPrefix(k, "G|") {
+			if isGhostKey(k) {
 				gk = append(gk, k)
 			}
 		}
 		sort.Strings(gk)
 		for _, k := range gk {
-			e.cur.vars[k] = e.freshT("lp_"+lastPart(k), SBV64)
+			srt := SBV64
+			if !strings.HasPrefix(k, "G|") {
+				srt = lockSort
+			}
+			e.cur.vars[k] = e.freshT("lp_"+lastPart(k), srt)
 		}
 	} else {
 		var keys []string
